@@ -3,6 +3,7 @@
 package c19
 
 import (
+	"bufio"
 	"bytes"
 	"fmt"
 	"io"
@@ -146,6 +147,18 @@ func run(c Case) (res ev.Result) {
 	if s := try("one byte per read", &faultio.OneByteReader{Data: c.Stream}, []int{1}); s != "" {
 		res.Violation = s
 		return
+	}
+	// the same *bufio.Reader handed to every call (a reader type the decoder might special-case),
+	// with buffers smaller and larger than the lines
+	for _, size := range []int{16, 1024, 4096} {
+		var src io.Reader = bytes.NewReader(c.Stream)
+		if len(c.Cuts) > 0 {
+			src = &faultio.FragReader{Data: c.Stream, Cuts: c.Cuts[0]}
+		}
+		if s := try(fmt.Sprintf("bufio.Reader of %d bytes", size), bufio.NewReaderSize(src, size), nil); s != "" {
+			res.Violation = s
+			return
+		}
 	}
 	for _, eof := range []bool{false, true} {
 		all := append([][]int{{}}, c.Cuts...)
@@ -305,7 +318,7 @@ func genCase(t *rapid.T) Case {
 }
 
 var streams = ev.NewCheck("C19", "line-streams",
-	"rapid: 1..12 records, in one case of six 300..1500 short ones (time stamps over int32 incl. negatives and extremes, messages of 1..2000 arbitrary bytes) encoded like the driver (\"%d %X\\n\"); optionally lines damaged by: one hex digit removed, a hex digit or a time-stamp digit replaced by a character from [g-zG-Z_#@!,;], separator removed, newline removed (two lines merge / stream ends unterminated), message removed, time stamp outside int32, damaged time stamp followed by a complete record on the same line, doubled separator, separator inside the data; read from memory, one byte per call, a single read and 1..4 random partitions, each also with the last bytes delivered together with io.EOF; oracle = line model (split at newline; well formed iff -?[0-9]+ SP ([0-9A-F]{2})+): calling ReadAndConvert until io.EOF yields exactly the records of the well-formed lines in order, at least one error per malformed line, no panic, terminates within len(stream)+3 calls, the same outcome sequence for every fragmentation, and also when two copies of the stream are decoded alternately call by call (no state shared between sources); non-trivial = >= 2 records and (a read boundary inside a line or a well-formed line after a malformed one); distinct by stream bytes",
+	"rapid: 1..12 records, in one case of six 300..1500 short ones (time stamps over int32 incl. negatives and extremes, messages of 1..2000 arbitrary bytes) encoded like the driver (\"%d %X\\n\"); optionally lines damaged by: one hex digit removed, a hex digit or a time-stamp digit replaced by a character from [g-zG-Z_#@!,;], separator removed, newline removed (two lines merge / stream ends unterminated), message removed, time stamp outside int32, damaged time stamp followed by a complete record on the same line, doubled separator, separator inside the data; read from memory, one byte per call, through one bufio.Reader (16, 1024, 4096 bytes) shared by all calls, a single read and 1..4 random partitions, each also with the last bytes delivered together with io.EOF; oracle = line model (split at newline; well formed iff -?[0-9]+ SP ([0-9A-F]{2})+): calling ReadAndConvert until io.EOF yields exactly the records of the well-formed lines in order, at least one error per malformed line, no panic, terminates within len(stream)+3 calls, the same outcome sequence for every fragmentation, and also when two copies of the stream are decoded alternately call by call (no state shared between sources); non-trivial = >= 2 records and (a read boundary inside a line or a well-formed line after a malformed one); distinct by stream bytes",
 	genCase, run)
 
 func TestPropLineStreams(t *testing.T) { streams.Rapid(t, 2500, 30000) }
